@@ -55,6 +55,7 @@ def GArg.hasSelf : GArg → Bool
   | .lt _ => false
   | .lit _ => false
   | .assoc _ t => t.hasSelf
+  | .cblock _ => false
 def GArg.hasSelfL : List GArg → Bool
   | [] => false
   | a :: as => a.hasSelf || GArg.hasSelfL as
